@@ -56,6 +56,7 @@ pub fn worker_main() {
             "eval" => run::run_eval(text, &opts_from(&req)),
             "parse" => run::parse_tree(text),
             "tokens" => crate::lexfam::tokens_json(text),
+            "parseraw" => crate::parsefam::parse_raw(text),
             "session" => crate::session::run_session(&req),
             "threads" => crate::purefam::run_threads(&req),
             "gcops" => crate::gcfam::run_gcops(&req),
